@@ -5,7 +5,7 @@ from __future__ import annotations
 import os
 import shutil
 
-from py2coq import BOOL, ELT, INT, NUM, NUMX, Translator, Unsupported, lst, obj, opt
+from py2coq import BOOL, ELT, INT, NUM, NUMX, NUMXN, Translator, Unsupported, lst, obj, opt
 
 # layout of the detector classes whose __init__ wires callbacks (not translated): the storage attributes
 # read/written by `_update` and `reset`, in a fixed order
@@ -57,6 +57,11 @@ SPEC = dict(
                    ("_additional_vars.test_type", obj("McDiarmidOneSidedTest")), ("_additional_vars.warning", BOOL)],
         "HDDMW2": [("_config", obj("HDDMWConfig")), ("_num_instances", INT), ("drift", BOOL),
                    ("_additional_vars.test_type", obj("McDiarmidTwoSidedTest")), ("_additional_vars.warning", BOOL)],
+        "EDDM": [("_config", obj("EDDMConfig")), ("_num_instances", INT), ("drift", BOOL),
+                 ("_additional_vars.last_distance_error", NUM), ("_additional_vars.max_distance_threshold", NUMXN),
+                 ("_additional_vars.mean_distance_error", NUM), ("_additional_vars.num_misclassified_instances", INT),
+                 ("_additional_vars.old_mean_distance_error", NUM), ("_additional_vars.std_distance_error", NUM),
+                 ("_additional_vars.variance_distance_error", NUM), ("_additional_vars.warning", BOOL)],
         "ECDDWT": [("_config", obj("ECDDWTConfig")), ("_num_instances", INT), ("drift", BOOL), ("_additional_vars.p", obj("Mean")),
                    ("_additional_vars.z", obj("EWMA")), ("_additional_vars.warning", BOOL), ("_lambda_div_two_minus_lambda", NUM)],
     },
@@ -82,6 +87,7 @@ UNITS = [
     ("STEPDConfig", "__init__"),
     ("DDM", "_update"), ("DDM", "reset"),
     ("ECDDWT", "_update"), ("ECDDWT", "reset"),
+    ("EDDM", "_update"), ("EDDM", "reset"),
     ("HDDMA1", "_update"), ("HDDMA1", "reset"), ("HDDMA2", "_update"), ("HDDMA2", "reset"),
     ("HDDMW1", "_update"), ("HDDMW1", "reset"), ("HDDMW2", "_update"), ("HDDMW2", "reset"),
 ]
